@@ -11,7 +11,7 @@ open SaModel SaModel.Spec SaModel.Lemmas.C03
 theorem fslFree_prim (o : TraceOpts) (p : Prim) : fslFreeDT (primDT o p) = true := by
   cases p with
   | int t => cases t <;> rfl
-  | str => simp only [primDT, strDT]; split <;> (try split) <;> rfl
+  | str | strRef | cowStr => simp only [primDT, strDT]; split <;> (try split) <;> rfl
   | _ => rfl
 
 mutual
